@@ -448,7 +448,7 @@ var (
 	plainKeys   = []string{"a", "b", "c", "d", "id", "name", "x", "y"}
 	awkwardKeys = []string{"", "a/b", "~t", "0", "-", "ü", "k e", "a~1b", "1e3", "true", "null", "a.b", "\"q\""}
 	plainStrs   = []string{"a", "b", "c", "foo", "bar", "x y", "50%"}
-	awkwardStrs = []string{"90%", "%s %d %v", "100%!", "line one\nline two\n", "tail\n", strings.Repeat("日本語のテキスト", 5), strings.Repeat("Привет мир ", 4), strings.Repeat("é", 70), "", "\"", "\\", "\n", "\t", "\u0001", "é", "日本", "😀", "<>&", "a\nb", "true", "1", "1e3", "~", "null", "- x", "a: b", "#", " lead", "trail ", "@ [", "+ 1", "^ {}"}
+	awkwardStrs = []string{"the quick brown fox jumps over the lazy dog and keeps on running far beyond the eightieth column of the page", "90%", "%s %d %v", "100%!", "line one\nline two\n", "tail\n", strings.Repeat("日本語のテキスト", 5), strings.Repeat("Привет мир ", 4), strings.Repeat("é", 70), "", "\"", "\\", "\n", "\t", "\u0001", "é", "日本", "😀", "<>&", "a\nb", "true", "1", "1e3", "~", "null", "- x", "a: b", "#", " lead", "trail ", "@ [", "+ 1", "^ {}"}
 	symbols     = []float64{1, 2, 3}
 )
 
@@ -812,7 +812,7 @@ func perturb(c *Chooser, v *Val, eps float64) *Val {
 		switch n.K {
 		case 'n':
 			if c.Chance(1, 2) {
-				n.N += eps * []float64{0.5, -0.5, 0.99, -0.25, 1.5}[c.Int(5)]
+				n.N += eps * []float64{0.5, -0.5, 0.99, -0.25, 1.5, 1, -1, 1}[c.Int(8)] // also exactly the tolerance
 			}
 		case 'o':
 			for _, x := range n.Vals {
